@@ -1,7 +1,7 @@
 #!/bin/sh
 # dev-only: run every quick check against behaviour-preserving refactorings of /repo (scratch worktrees, VERIF_REPO);
 # usage: dev/harmless.sh <patch dir> <first> <last>   (run from a checkout of /verif that has been set up)
-PD=$1; A=$2; B=$3
+PD=$(cd "$1" && pwd); A=$2; B=$3
 for i in $(seq -w $A $B); do
   P=$PD/h$i.diff
   [ -f $P ] || continue
